@@ -4,7 +4,9 @@ import numpy as np
 
 from .util import flt
 
-FORMS = {'float': float, 'int': int, 'np.float64': np.float64, 'np.float32': np.float32, 'np.int64': np.int64}
+FORMS = {'float': float, 'int': int, 'np.float64': np.float64, 'np.float32': np.float32, 'np.int64': np.int64,
+         'np.float16': np.float16, 'np.int32': np.int32}
+INT_TAGS = ('int', 'np.int64', 'np.int32')
 
 
 def replay(w):
@@ -24,7 +26,7 @@ def replay(w):
                 tag = nt.get('tag')
                 vals = [0.01, 0.25]
                 if kind == 'type':
-                    vals = [1, 2] if tag in ('int', 'np.int64') else [float(FORMS[tag](0.11)), float(FORMS[tag](0.37))]
+                    vals = [1, 2] if tag in INT_TAGS else [float(FORMS[tag](0.11)), float(FORMS[tag](0.37))]
                 for val in vals:
                     ref = admm.admm_optimize_theta(S, float(val), W, N, max_iterations=25).theta
                     if kind == 'value':
@@ -41,8 +43,8 @@ def replay(w):
         if kind == 'beta':
             T, K = int(nt['T']), int(nt['K'])
             cost = np.array([[flt(inp.get('c_%d_%d' % (i, k), 0)) for k in range(K)] for i in range(T)])
-            val = flt(inp.get('b', 1)) if nt['tag'] not in ('int', 'np.int64') else int(flt(inp.get('b', 1)))
-            val = float(FORMS[nt['tag']](val)) if nt['tag'] not in ('int', 'np.int64') else val
+            val = flt(inp.get('b', 1)) if nt['tag'] not in INT_TAGS else int(flt(inp.get('b', 1)))
+            val = float(FORMS[nt['tag']](val)) if nt['tag'] not in INT_TAGS else val
             p1, c1 = cla.assign_point_cluster_labels(cost, FORMS[nt['tag']](val))
             p2, c2 = cla.assign_point_cluster_labels(cost, np.full((T,), float(val)))
             bad = [int(x) for x in p1] != [int(x) for x in p2] or float(c1) != float(c2)
@@ -50,8 +52,8 @@ def replay(w):
                     'observed': {'scalar': [[int(x) for x in p1], float(c1)], 'vector': [[int(x) for x in p2], float(c2)]}}
         if kind == 'floor':
             M = np.array([[flt(inp.get('m_%d_%d' % (i, j), 0)) for j in range(2)] for i in range(2)])
-            val = flt(inp.get('eps', 1)) if nt['tag'] not in ('int', 'np.int64') else int(flt(inp.get('eps', 1)))
-            val = float(FORMS[nt['tag']](val)) if nt['tag'] not in ('int', 'np.int64') else val
+            val = flt(inp.get('eps', 1)) if nt['tag'] not in INT_TAGS else int(flt(inp.get('eps', 1)))
+            val = float(FORMS[nt['tag']](val)) if nt['tag'] not in INT_TAGS else val
             a = gl._zero_small_elements(M, FORMS[nt['tag']](val))
             b = gl._zero_small_elements(M, float(val))
             bad = not np.array_equal(a, b)
@@ -130,7 +132,7 @@ def validate(witnesses):
         L = n * (n + 1) // 2
         x = np.array([flt(inp.get('x_%d' % k, 0)) for k in range(L)])
         u = np.array([flt(inp.get('u_%d' % k, 0)) for k in range(L)])
-        lam = FORMS[nt['tag']](flt(inp.get('lam', 0))) if nt['tag'] not in ('int', 'np.int64') else FORMS[nt['tag']](int(flt(inp.get('lam', 0))))
+        lam = FORMS[nt['tag']](flt(inp.get('lam', 0))) if nt['tag'] not in INT_TAGS else FORMS[nt['tag']](int(flt(inp.get('lam', 0))))
         if nt['tag'] in ('np.float32',) and float(lam) != flt(inp.get('lam', 0)):
             skipped += 1
             continue
